@@ -70,6 +70,14 @@ VARIANTS = {
              "-fno-omit-frame-pointer"],
     "plain": ["-g", "-O1"],
     "tsan": ["-g", "-O1", "-fsanitize=thread"],
+    # allocation hooks: the library's own malloc/calloc/realloc/free are redirected (at compile time, for
+    # lib/ sources only) to vh_* functions provided by harness/h_alloc.c; see harness/allochook.h
+    "hook": ["-g", "-O1", "-fsanitize=address,undefined", "-fno-sanitize-recover=all", "-fno-omit-frame-pointer"],
+}
+
+# extra flags applied to /repo/lib sources only, per variant
+LIB_ONLY = {
+    "hook": ["-include", os.path.join(ROOT, "harness", "allochook.h")],
 }
 
 
@@ -87,6 +95,8 @@ def build(variant="san", extra_defs=()):
     hdrs = _files(os.path.join(REPO, "lib"), (".h",)) + _files(os.path.join(REPO, "include"), (".h", ".in")) \
         + _files(os.path.join(REPO, "cmd"), (".h",))
     hsrc = _files(os.path.join(ROOT, "harness"), (".c", ".h"))
+    if variant in LIB_ONLY and not os.path.exists(os.path.join(ROOT, "harness", "allochook.h")):
+        raise BuildError("variant %s needs harness/allochook.h" % variant)
     key = tree_hash(lib_sources() + cmd_sources() + hdrs + hsrc) + "-" + variant + "".join(extra_defs)
     out = os.path.join(WORK, "build-" + variant)
     stamp = os.path.join(out, "stamp")
@@ -109,7 +119,8 @@ def build(variant="san", extra_defs=()):
 
     def one(j):
         kind, s, o = j
-        r = sh(cc + ["-c", s, "-o", o])
+        extra = LIB_ONLY.get(variant, []) if kind == "lib" else []
+        r = sh(cc + extra + ["-c", s, "-o", o])
         return (j, r)
 
     with cf.ThreadPoolExecutor(NCPU) as ex:
